@@ -215,12 +215,14 @@ class MinGenSet():
                     )
             else:  
                 for i in range(k):
+                    # The helper sizes the binary expansion of the integer factor from `ub`: it must also
+                    # be able to represent max_multiplicity (which can exceed a small total)
                     self.solver.add_integer_continuous_product_constraint(
                             integer_var=self.x_vars[(i, j)],
                             continuous_var=self.genset_vars[(i)],
                             product_var=self.pi_vars[(i, j)],
                             lb=0,
-                            ub=self.total,
+                            ub=max(self.total, self.max_multiplicity),
                             name=f"pi_i={i}_j={j}",
                         )
 
